@@ -90,6 +90,7 @@ impl<R: Region, S: IndexContainer<R::Index>> Sink<R> for FlatStack<R, S> {
     where
         R: Push<T>,
     {
+        let _w = alloc::window();
         self.extend(xs)
     }
     fn from_all<T>(xs: Vec<T>) -> Self
@@ -104,6 +105,7 @@ impl<R: Region, S: IndexContainer<R::Index>> Sink<R> for FlatStack<R, S> {
     {
         // two honest but unhelpful hints: (0, Some(n)) from a filter, (0, Some(usize::MAX)) from an adaptor that
         // only knows "finite" (an upper bound may be arbitrarily loose)
+        let _w = alloc::window();
         if xs.len() % 2 == 0 {
             self.extend(xs.into_iter().filter(|_| true))
         } else {
